@@ -33,3 +33,14 @@ Proof. unfold fx_default_workers, fx_min_workers. lia. Qed.
 
 Theorem maxconns_refuses_with_503 : maxconns_refusal_status = 503.
 Proof. reflexivity. Qed.
+
+(* F34: a panicking create() must not use up the Pool's slot.  Judged by behaviour on every
+   run (the executor's probe: Pool(1), the first create() panics, the next Get succeeds), and
+   expected since the repair is in the tree (marker corpus/C05/pool_create_panic_fixed): the
+   model of Model.v ([pget] with [cp = true] counts nothing) is the model of such a tree only. *)
+Theorem pool_create_panic_fix_present :
+  pool_create_panic_fix_expected = true -> pool_create_panic_uncounts = true.
+Proof.
+  unfold pool_create_panic_fix_expected, pool_create_panic_uncounts. intros H.
+  first [reflexivity | discriminate H].
+Qed.
